@@ -89,4 +89,8 @@ theorem race_no_raise (cls : Classifier) (o1 o2 : Nat → Obs) (sys : Sys) (k : 
       · exact ⟨n1 _ _ e, n2 _ _ e⟩
     · exact ⟨n1 _ _ e, n2 _ _ e⟩
 
+/-- assigning a non-negative int to a public attribute keeps the store well-formed -/
+theorem assign_wf (s : Store) (f : Field) (v : Nat) (h : s.WF) : (s.assign f v).WF := by
+  cases f <;> simp only [Store.assign] <;> (obtain ⟨h1, h2, h3, h4, h5, h6, h7⟩ := h; constructor <;> (try dsimp only) <;> omega)
+
 end Operon.Atp
